@@ -304,6 +304,19 @@ Gen<Case> gen_case() {
                                      return s;
                                  }),
                         "long-digits");
+    // 5d zero with an exponent far outside any range (ten and more significant exponent digits): the value is zero, the sign is kept
+    auto zero_huge = finish(gen::map(gen::tuple(sign_gen(), pbt::pick<std::string>({"0", "0.0", "0.000", "00", "0.0000000000000000000000"}),
+                                                pbt::pick<std::string>({"e", "E", "e+", "E-", "e-"}),
+                                                pbt::pick<std::string>({"1234567890", "9999999999", "10000000000", "4294967296", "4294967295", "18446744073709551616",
+                                                                        "98765432101234567890", "100000000", "99999999", "2147483648"})),
+                                     [](std::tuple<std::string, std::string, std::string, std::string> t) {
+                                         std::string m = std::get<1>(t);
+                                         if (m == "00") {
+                                             m = "0"; // (no leading zeros in the grammar)
+                                         }
+                                         return std::get<0>(t) + m + std::get<2>(t) + std::get<3>(t);
+                                     }),
+                            "zero-with-huge-exponent");
     // 5c numerals thousands of characters long whose written exponent compensates their own zeros (0.000...0d e+N, d000...0 e-N):
     // the written exponent is far outside the double range, the value is not
     auto compensated = finish(gen::map(gen::tuple(sign_gen(), pbt::pick<int>({300, 998, 9995, 9999, 10000, 10001, 12345, 65535, 65537, 100000}), digits_gen(1, 20, true),
@@ -504,7 +517,7 @@ Gen<Case> gen_case() {
                      return std::get<0>(t) + m;
                  }),
         "malformed", 1);
-    return gen::oneOf(ints, bounds, decimals, decimals, intexp, longs, leadzeros, spelled, spelled, ties, near_tie, near_tie, carry, nines, padded, compensated, overflow, overflow_plain, subnormal,
+    return gen::oneOf(ints, bounds, decimals, decimals, intexp, longs, leadzeros, spelled, spelled, ties, near_tie, near_tie, carry, nines, padded, compensated, zero_huge, overflow, overflow_plain, subnormal,
                       zeros, malformed);
 }
 
